@@ -73,6 +73,10 @@ def run_sessions(prog):
         r2 = driver.run_pytest(d, ["--inline-snapshot=create,fix,trim,update"], env=env)
         f2 = (d / "test_p.py").read_bytes()
         out2 = r2["stdout"]
+        st = d / ".inline-snapshot" / "external"
+        store2 = sorted(x.name for x in st.iterdir() if x.name != ".gitignore") if st.exists() else []
+        if prog.get("externals") is not None and not (len(store2) == prog["externals"] and not any("-new" in n for n in store2) and "removed" not in out2):
+            return {"rc1": r1["rc"], "rc2": r2["rc"], "same": False, "panel": False, "tail": f"storage after the second session: {store2}; " + out2[-800:], "f2": f2.decode("utf-8", "replace")}
         return {"rc1": r1["rc"], "rc2": r2["rc"], "same": f1 == f2, "panel": any(w in out2 for w in ("Create snapshots", "Fix snapshots", "Trim snapshots", "Update snapshots")),
                 "tail": (out2[-1500:] + r2["stderr"][-300:]), "f2": f2.decode("utf-8", "replace")}
     finally:
@@ -142,6 +146,12 @@ def run(ctx: Ctx):
     SAME_SIZE = ("from inline_snapshot import snapshot\n\n\ndef test_a():\n    assert 2 == snapshot(1)\n    assert 'abd' == snapshot('abc')\n\n\n"
                  "def test_b():\n    for x in (1, 2):\n        assert x <= snapshot(1)\n")
     sp += [{"source": SAME_SIZE, "bytecode": True}, {"source": SAME_SIZE.replace("2 == snapshot(1)", "7 == snapshot(5)"), "bytecode": True}]
+    # values that are == and hash alike but have different code (0.0 / -0.0, 1 / True / 1.0) in one session
+    sp += [{"source": "from inline_snapshot import snapshot\n\n\ndef test_a():\n    assert [0.0, -0.0, 1.5] == snapshot()\n    assert -0.0 == snapshot()\n    assert [1, True, 1.0, 0, False] == snapshot()\n\n\n"
+                      "def test_b():\n    assert {'z': -0.0, 'p': 0.0} == snapshot({'z': 5.0})\n    assert (0.0, -0.0) == snapshot((-0.0,))\n"}]
+    # externals created, replaced and trimmed in the session that also writes the reference: the second session finds nothing to do in the storage either
+    sp += [{"source": "from inline_snapshot import snapshot, outsource, external\n\n\ndef test_a():\n    assert outsource('a' * 40) == snapshot()\n\n\n"
+                      "def test_b():\n    assert [outsource(b'b' * 40), 1] == snapshot([0])\n", "externals": 2}]
     for p, o in zip(sp, tmap(run_sessions, sp)):
         ctx.count(("session", p["source"]), True)
         why = None
